@@ -362,11 +362,15 @@ func TestC05Nested(t *testing.T) {
 			rt.Fatalf("inconclusive: %s", out.Inconcl)
 		}
 		rec.End(hash, out.Symptom)
-		rec.Case("TestC05Nested", hash, true, []string{"nested"}, map[string]any{"case": c, "steps": out.Steps})
+		cls := []string{"nested", "checked-strictly"}
+		if len(out.CohortRisk) > 0 {
+			cls[1] = "inside-C05-F1-pattern"
+		}
+		rec.Case("TestC05Nested", hash, true, cls, map[string]any{"case": c, "steps": out.Steps, "c05f1": out.CohortRisk})
 		if out.Symptom == "" {
 			return
 		}
-		if rec.Known("C05-F1") {
+		if rec.Known("C05-F1") && len(out.CohortRisk) > 0 {
 			switch out.Symptom {
 			case "missing-request", "not-complete", "extra-request", "flows", "ends", "errors":
 				rec.KnownHit("TestC05Nested", "C05-F1", hash)
